@@ -35,9 +35,18 @@ def table_for(c):
     return sig, df
 
 
-def windows(c, n, fs, rng):
+def windows(c, n, fs, rng, df=None, r=None):
     yield None
     low = low_truncating(fs, n)
+    if df is not None and len(df) > 3:
+        # windows whose limits coincide with cycle boundaries (first sample of the view = first sample of a cycle)
+        L = df[r['L']].values.astype(int)
+        N = df[r['N']].values.astype(int)
+        burst = [i for i in range(len(df)) if bool(df['is_burst'].values[i])] or [1]
+        i0 = rng.choice(burst)
+        i1 = min(len(df) - 1, i0 + rng.choice([0, 1, 3]))
+        yield (int(L[i0]), min(n - 1, int(N[i1]) + rng.choice([1, 5])))
+        yield (int(L[i0]), int(N[i1]))
     for _ in range(c['nwin']):
         a = rng.choice(low) if low and rng.random() < 0.5 else rng.randrange(0, n - 2)
         width = rng.choice([3, 40, 200, 600])
@@ -80,7 +89,7 @@ class Plots:
         th = dict(TH_PRESETS['loose'])
         saved = (pc.plot_time_series, pb.plot_time_series, pb.plot_bursts)
         try:
-            for win in windows(c, n, fs, rng):
+            for win in windows(c, n, fs, rng, df, r):
                 xlim = None if win is None else (times[win[0]], times[win[1]])
                 # the view is the displayed sample range: limit_signal keeps start <= t < stop
                 lo, hi = (0, n - 1) if win is None else (win[0], win[1] - 1)
